@@ -738,7 +738,7 @@ host, `split_suffix` is `None` on a bracketed literal), both modes:
   LRU again**.
 
 Suffix-aware mode: given C08's clause at `u`. -/
-theorem roundtrip_string (sa : Bool) (u : Str) (hc : inClass sp sa u = true)
+theorem roundtrip_string_partial (sa : Bool) (u : Str) (hc : inClass sp sa u = true)
     (hs : sa = true → SplitRejoinsUrl sp u) :
     ∃ p back,
       urlParts u = some p ∧ lruStemsUrl sp sa u = some (lruStems sp sa p) ∧
@@ -793,5 +793,159 @@ theorem roundtrip_string (sa : Bool) (u : Str) (hc : inClass sp sa u = true)
     rw [hre]; rfl
   · unfold urlToLru
     rw [hstems]
+
+/-- **the round trip in terms of CPython's own accessors** (component level): the re-assembled
+netloc has the same `.hostname` (CPython lower-cases it), the same `.port` (and the same port
+text), and the same `.username` / `.password` up to empty ≡ absent, as the netloc of `u` -/
+theorem accessors_roundtrip (sa : Bool) (p : Parts) (hwf : wfNetloc p.netloc = true)
+    (hsa : sa = true → saHostOK sp p.netloc = true) :
+    Py.hostname (expectedParts sp sa p).netloc = Py.hostname p.netloc ∧
+    Py.port (expectedParts sp sa p).netloc = Py.port p.netloc ∧
+    (Py.hostinfo (expectedParts sp sa p).netloc).2 = (Py.hostinfo p.netloc).2 ∧
+    (Py.username (expectedParts sp sa p).netloc).getD [] = (Py.username p.netloc).getD [] ∧
+    (Py.password (expectedParts sp sa p).netloc).getD [] = (Py.password p.netloc).getD [] := by
+  obtain ⟨hh', hat'⟩ := expectedHost_shape sp sa p.netloc hwf
+  obtain ⟨c1, _, c3, c4, c5, c6⟩ := canonNetloc_components hwf hh' hat'
+  obtain ⟨a1, a2, a3⟩ := accessors_grammar hwf
+  obtain ⟨b1, b2, b3⟩ := accessors_grammar c1
+  obtain ⟨_, _, _, hshape, _⟩ := wfNetloc_shape hwf
+  have hq : (expectedParts sp sa p).netloc = canonNetloc p.netloc (expectedHost sp sa p.netloc) := rfl
+  -- the host without brackets, lower-cased by `.hostname`, is the same
+  have hhost : (unbracket (expectedHost sp sa p.netloc) = [] ↔ unbracket (specHost p.netloc) = []) ∧
+      lowerHost (unbracket (expectedHost sp sa p.netloc)) = lowerHost (unbracket (specHost p.netloc)) := by
+    cases hsat : sa with
+    | false => simp [expectedHost]
+    | true =>
+      subst hsat
+      have hbr : true = true → (specHost p.netloc).head? = some '[' →
+          splitSuffixParsed sp p.netloc = none := by
+        intro _ hb
+        have := hsa rfl
+        unfold saHostOK at this
+        rw [hb] at this
+        simpa using this
+      rcases expectedHost_cases sp true p.netloc hbr hshape with he | ⟨hp, he⟩
+      · rw [he]; exact ⟨Iff.rfl, rfl⟩
+      · have hpct : '%' ∉ specHost p.netloc := by
+          have := hsa rfl
+          rw [saHostOK_plain sp hp] at this
+          intro hm; have := noneOf_iff.mp this _ hm; simp at this
+        have hpct' : '%' ∉ lower (specHost p.netloc) := fun h => hpct (mem_of_mem_lower (by decide) h)
+        rw [he, unbracket_plain (plain_lower hp), unbracket_plain hp,
+          lowerHost_of_no_percent hpct, lowerHost_of_no_percent hpct', lower_idem]
+        exact ⟨by simp [lower_eq_nil], rfl⟩
+  have hinfo2 : (Py.hostinfo (expectedParts sp sa p).netloc).2 = (Py.hostinfo p.netloc).2 := by
+    rw [hq, b3, a3, c4]
+  refine ⟨?_, ?_, hinfo2, ?_, ?_⟩
+  · unfold Py.hostname
+    rw [hq, b3, a3, c3]
+    simp only
+    by_cases h0 : unbracket (specHost p.netloc) = []
+    · rw [if_pos h0, if_pos (hhost.1.2 h0)]
+    · rw [if_neg h0, if_neg (fun h => h0 (hhost.1.1 h)), hhost.2]
+  · unfold Py.port
+    rw [hinfo2]
+  · rw [hq, b1, a1, c5]
+  · rw [hq, b2, a2, c6]
+
+/-- **"re-parse to exactly the components of u", on URL strings, in CPython's vocabulary**: for
+every `u` of the class, `B = urlsplit(lru_to_url(url_to_lru(u)))` has the scheme, path, query
+and fragment of `A = urlsplit(ensure_protocol(u))`, `B.hostname == A.hostname`,
+`B.port == A.port`, `B.username` / `B.password` those of `A` up to empty ≡ absent; the host as
+written is kept (lower-cased when suffix-aware and the host has a public suffix) -/
+theorem accessors_string_partial (sa : Bool) (u : Str) (hc : inClass sp sa u = true)
+    (hs : sa = true → SplitRejoinsUrl sp u) :
+    ∃ A B back,
+      urlParts u = some A ∧ lruToUrlStr (serializeLru (lruStems sp sa A)) = .ok back ∧
+      reparse back = some B ∧
+      B.scheme = A.scheme ∧ B.path = A.path ∧ B.query = A.query ∧ B.fragment = A.fragment ∧
+      Py.hostname B.netloc = Py.hostname A.netloc ∧ Py.port B.netloc = Py.port A.netloc ∧
+      (Py.username B.netloc).getD [] = (Py.username A.netloc).getD [] ∧
+      (Py.password B.netloc).getD [] = (Py.password A.netloc).getD [] ∧
+      specHost B.netloc = expectedHost sp sa A.netloc ∧ specPort B.netloc = specPort A.netloc := by
+  obtain ⟨p, back, hp, _, _, _, h5, h6, _⟩ := roundtrip_string_partial sp sa u hc hs
+  obtain ⟨q, hq, hcp⟩ := (inClass_iff sp).1 hc
+  rw [hp] at hq
+  cases hq
+  have c := classFacts sp hcp
+  obtain ⟨e1, e2, _, e4, e5⟩ := accessors_roundtrip sp sa p c.wf c.saok
+  obtain ⟨hh', hat'⟩ := expectedHost_shape sp sa p.netloc c.wf
+  obtain ⟨_, _, c3, c4, _⟩ := canonNetloc_components c.wf hh' hat'
+  exact ⟨p, expectedParts sp sa p, back, hp, h5, h6, rfl, rfl, rfl, rfl, e1, e2, e4, e5, c3, c4⟩
+
+/-! ### non-vacuity, and what happens outside the class -/
+
+def demoUrl : Str := "HTTP://u:p@WWW.A.CO.UK:80/x//y/?q#f".toList
+
+example : inClass demoSplit true demoUrl = true ∧ inClass demoSplit false demoUrl = true := by
+  decide +kernel
+
+example : urlToLru demoSplit true demoUrl =
+    some "s:http|t:80|h:co.uk|h:a|h:www|p:x|p:|p:y|p:|q:q|f:f|u:u|w:p|".toList := by decide +kernel
+
+example : (urlToLru demoSplit true demoUrl).bind (fun l => (lruToUrlStr l).toOption) =
+    some "http://u:p@www.a.co.uk:80/x//y/?q#f".toList := by decide +kernel
+
+/-- scheme-less input, `:` and `@` in the path, password without user, bracketed IPv6 with a port,
+zone id, tab inside, empty user -/
+example : inClass demoSplit false "localhost:8080/a:b@c".toList = true ∧
+    inClass demoSplit true "//:pw@[2001:db8::1]:8080/a".toList = true ∧
+    inClass demoSplit true "http://[fe80::1%25eth0]:22/".toList = true ∧
+    inClass demoSplit true "ht\ttp://a.com/x".toList = true ∧
+    inClass demoSplit true "http://@A.COM:/".toList = true := by decide +kernel
+
+/-- the full statement: every `|`-free URL string the parser accepts (C08's clause granted) -/
+def FullRoundtripString : Prop :=
+  ∀ (sa : Bool) (u : Str) (p : Parts), '|' ∉ u → urlParts u = some p →
+    (sa = true → SplitRejoins sp p.netloc) →
+    ∃ back, lruToUrl (lruStems sp sa p) = .ok back ∧ reparse back = some (expectedParts sp sa p)
+
+def noHostParts : Parts :=
+  { scheme := "http".toList, netloc := [], path := "//x".toList, query := [], fragment := [] }
+
+/-- **outside the class the statement fails** — no host: `http:////x` comes back as `http://x`,
+whose netloc is `x` (CPython's `urlunsplit` drops an empty netloc in front of `//`) -/
+theorem fullRoundtripString_false : ¬ FullRoundtripString demoSplit := by
+  intro h
+  obtain ⟨back, h1, h2⟩ := h false "http:////x".toList noHostParts (by decide +kernel)
+    (by decide +kernel) (fun h => by cases h)
+  have e : (lruToUrl (lruStems demoSplit false noHostParts)).toOption = some "http://x".toList := by
+    decide +kernel
+  rw [h1] at e
+  simp only [Except.toOption, Option.some.injEq] at e
+  subst e
+  revert h2
+  decide +kernel
+
+/-- outside `wfNetloc` (two ports): the second port is lost -/
+example : ((lruStemsUrl demoSplit false "http://a.com:80:90/".toList).bind
+      (fun st => (lruToUrl st).toOption)).bind reparse =
+    some { scheme := "http".toList, netloc := "a.com".toList, path := "/".toList, query := [],
+           fragment := [] } := by decide +kernel
+
+/-- a split function answering like the real trie on the text of a zone id -/
+def zoneSplit (h : Str) : Option (Str × Str) :=
+  if h = "::1%a.co.uk".toList then some ("::1%a".toList, "co.uk".toList) else none
+
+/-- outside `saHostOK` (KF-C12-1): a bracketed literal on which `split_suffix` finds a suffix —
+C08's clause holds, yet the literal comes back without brackets and no longer parses to the
+same host -/
+example : SplitRejoins zoneSplit "[::1%a.co.uk]".toList ∧
+    inClass zoneSplit true "http://[::1%a.co.uk]/x".toList = false ∧
+    (urlToLru zoneSplit true "http://[::1%a.co.uk]/x".toList).bind
+      (fun l => (lruToUrlStr l).toOption) = some "http://::1%a.co.uk/x".toList := by
+  refine ⟨?_, by decide +kernel, by decide +kernel⟩
+  intro d s h
+  have e : pyHostname "[::1%a.co.uk]".toList = "::1%a.co.uk".toList := by decide +kernel
+  rw [e] at h ⊢
+  have : zoneSplit "::1%a.co.uk".toList = some ("::1%a".toList, "co.uk".toList) := by decide +kernel
+  rw [this] at h
+  simp only [Option.some.injEq, Prod.mk.injEq] at h
+  obtain ⟨rfl, rfl⟩ := h
+  decide +kernel
+
+/-- a malformed authority: the real code raises `ValueError` (`urlsplit`) -/
+example : urlParts "http://[::1/x".toList = none ∧ urlParts "http://u[@a.com/".toList = none := by
+  decide +kernel
 
 end Ural.Props.C12
